@@ -507,7 +507,7 @@ def run_check(pid):
     model = vlib.build_model('rotate')
     impl = vlib.build_harness('rotate')
     thorough = chk.tier == 'thorough'
-    ncases = 4000 if thorough else 500
+    ncases = 2500 if thorough else 500
     cases = []
     cdir = os.path.join(vlib.VERIF, 'corpus', pid)
     for p in sorted(os.listdir(cdir)) if os.path.isdir(cdir) else []:
